@@ -18,8 +18,8 @@
    the value back.  Excluded: records (Type k:v), keys that are neither symbols nor strings, a symbol key whose
    first value is the symbol for (parsed as an infix block), and the known findings (strings / keys needing Go-only escapes). *)
 From Coq Require Import ZArith List Bool.
-From ZV Require Import Model.Regex Generated.LexTables Model.Lexer Model.Reader Model.Printer
-  Proofs.PrinterLex Proofs.RegexSem Proofs.Classify Proofs.PrinterProofs Proofs.EvalJson.
+From ZV Require Import Model.Regex Generated.LexTables Model.Lexer Model.Reader Model.Printer Model.PrinterPretty
+  Proofs.PrinterLex Proofs.RegexSem Proofs.Classify Proofs.PrinterProofs Proofs.EvalJson Proofs.PrinterPretty.
 Import ListNotations.
 Open Scope Z_scope.
 
@@ -374,3 +374,83 @@ Example sym_ok_foo : sym_ok [102; 111; 111; 36].
 Proof.
   split; [discriminate|]. split; [repeat constructor|]. split; [vm_compute; reflexivity|discriminate].
 Qed.
+
+(* ---- the PRETTY mode of the printers ((pretty true) sets env.Pretty; SexpArray.SexpString / SexpHash.SexpString then
+   write one element / pair per line with the indentation bookkeeping of PrintState): Model/PrinterPretty.v [ppr].
+   [pv] = a value whose arrays say whether they carry an environment (only those obey the flag), [erase] forgets that.
+   The token stream of the pretty text is the token stream of the plain text, for every indentation the printer starts
+   with; hence the reader (whole text, any pieces: the REPL's lines, cuts anywhere) and the evaluated route return the value. ---- *)
+Theorem pretty_off_is_plain : forall is_print p, pwf p = true -> forall ind tail,
+  ppr is_print false ind tail p = pr is_print tail (erase p).
+Proof. exact Proofs.PrinterPretty.pretty_off_is_plain. Qed.
+Print Assumptions pretty_off_is_plain.
+
+Theorem read_print_pretty_tokens : forall is_print pretty ind p, pwf p = true -> dat is_print false (erase p) ->
+  lexes_to (ppr is_print pretty ind false p) (tk false (erase p)).
+Proof. exact pretty_lexes. Qed.
+Print Assumptions read_print_pretty_tokens.
+
+Theorem read_print_pretty : forall is_print pretty ind p fuel, pwf p = true -> dat is_print false (erase p) ->
+  (vsize (erase p) + 3 <= fuel)%nat ->
+  observe (parse_whole true false fuel (ppr is_print pretty ind false p)) = (StDone, [to_sexp (erase p)]).
+Proof. exact Proofs.PrinterPretty.read_print_pretty. Qed.
+Print Assumptions read_print_pretty.
+
+Theorem read_print_pretty_pieces : forall is_print pretty ind p fuel pieces, pwf p = true -> dat is_print false (erase p) ->
+  (vsize (erase p) + 3 <= fuel)%nat -> concat pieces = ppr is_print pretty ind false p ->
+  observe (parse_pieces true false fuel pieces) = (StDone, [to_sexp (erase p)]).
+Proof. exact Proofs.PrinterPretty.read_print_pretty_pieces. Qed.
+Print Assumptions read_print_pretty_pieces.
+
+Theorem read_print_pretty_repl : forall is_print pretty p fuel, pwf p = true -> dat is_print false (erase p) ->
+  (vsize (erase p) + 3 <= fuel)%nat ->
+  observe (parse_pieces true false fuel (split_lines (pprint is_print pretty p))) = (StDone, [to_sexp (erase p)]).
+Proof. exact Proofs.PrinterPretty.read_print_pretty_repl. Qed.
+Print Assumptions read_print_pretty_repl.
+
+Theorem read_print_pretty_cut : forall is_print pretty p fuel cuts, pwf p = true -> dat is_print false (erase p) ->
+  (vsize (erase p) + 3 <= fuel)%nat ->
+  observe (parse_pieces true false fuel (cut_pieces cuts 0 (pprint is_print pretty p))) = (StDone, [to_sexp (erase p)]).
+Proof. exact Proofs.PrinterPretty.read_print_pretty_cut. Qed.
+Print Assumptions read_print_pretty_cut.
+
+Theorem eval_read_print_pretty : forall pf is_print pretty ind p fuel, pwf p = true -> dat is_print false (erase p) ->
+  jl pf (erase p) -> (vsize (erase p) + 3 <= fuel)%nat ->
+  match observe (parse_whole true false fuel (ppr is_print pretty ind false p)) with
+  | (StDone, [e]) => eval_json_like pf e
+  | _ => None
+  end = Some (jv_of (erase p)).
+Proof. exact Proofs.PrinterPretty.eval_read_print_pretty. Qed.
+Print Assumptions eval_read_print_pretty.
+
+(* for a plain value, all arrays with (e = true) or without (e = false) their environment *)
+Theorem read_print_pretty_value : forall is_print pretty e v fuel, dat is_print false v -> (vsize v + 3 <= fuel)%nat ->
+  observe (parse_whole true false fuel (pprint is_print pretty (decorate e v))) = (StDone, [to_sexp v]).
+Proof. exact Proofs.PrinterPretty.read_print_pretty_value. Qed.
+Print Assumptions read_print_pretty_value.
+
+(* [1 2 [3 4] {a:1 b:[5 "x y"] "k":{c:2.0}} (hash) []] under (pretty true): byte for byte what the real (str v) returns
+   (closing bracket behind the INNER indentation, a blank before every newline of a hash, "{ nl nl blanks }" and "[ nl ]") *)
+Definition psample : value :=
+  VArr [VInt 1; VInt 2; VArr [VInt 3; VInt 4];
+        VHash [(VSym [97], VInt 1); (VSym [98], VArr [VInt 5; VStr [Rune 120; Rune 32; Rune 121]]);
+               (VStr [Rune 107], VHash [(VSym [99], VFloat 4611686018427387904 false (FFin (mkF false [50] [] None)))])];
+        VHash []; VArr []].
+
+Example psample_text : pprint ascii_print true (decorate true psample) =
+  [91; 10; 32; 32; 32; 32; 49; 10; 32; 32; 32; 32; 50; 10; 32; 32; 32; 32; 91; 10; 32; 32; 32; 32; 32; 32; 32; 32; 51; 10; 32; 32; 32; 32; 32; 32; 32; 32; 52; 10; 32; 32; 32; 32; 32; 32; 32; 32; 93; 10; 32; 32; 32; 32; 123; 10; 32; 32; 32; 32; 32; 32; 32; 32; 97; 58; 49; 32; 10; 32; 32; 32; 32; 32; 32; 32; 32; 98; 58; 91; 10; 32; 32; 32; 32; 32; 32; 32; 32; 32; 32; 32; 32; 53; 10; 32; 32; 32; 32; 32; 32; 32; 32; 32; 32; 32; 32; 34; 120; 32; 121; 34; 10; 32; 32; 32; 32; 32; 32; 32; 32; 32; 32; 32; 32; 93; 32; 10; 32; 32; 32; 32; 32; 32; 32; 32; 34; 107; 34; 58; 123; 10; 32; 32; 32; 32; 32; 32; 32; 32; 32; 32; 32; 32; 99; 58; 50; 46; 48; 32; 10; 32; 32; 32; 32; 32; 32; 32; 32; 125; 32; 10; 32; 32; 32; 32; 125; 10; 32; 32; 32; 32; 123; 10; 10; 32; 32; 32; 32; 125; 10; 32; 32; 32; 32; 91; 10; 93; 10; 32; 32; 32; 32; 93].
+Proof. vm_compute. reflexivity. Qed.
+
+Example psample_reads_back :
+  observe (parse_whole true false 60 (pprint ascii_print true (decorate true psample))) = (StDone, [to_sexp psample]).
+Proof. vm_compute. reflexivity. Qed.
+
+(* an array without environment inside a pretty hash stays on one line; typed at the REPL line by line *)
+Example psample_mixed :
+  pprint ascii_print true (PHash [(VSym [97], PArr false [PLeaf (VInt 1); PArr true [PLeaf (VInt 2)]])]) =
+  [123; 10; 32; 32; 32; 32; 97; 58; 91; 49; 32; 91; 10; 32; 32; 32; 32; 32; 32; 32; 32; 50; 10;
+   32; 32; 32; 32; 32; 32; 32; 32; 93; 93; 32; 10; 125]
+  /\ observe (parse_pieces true false 40 (split_lines (pprint ascii_print true
+        (PHash [(VSym [97], PArr false [PLeaf (VInt 1); PArr true [PLeaf (VInt 2)]])])))) =
+     (StDone, [to_sexp (VHash [(VSym [97], VArr [VInt 1; VArr [VInt 2]])])]).
+Proof. split; vm_compute; reflexivity. Qed.
